@@ -203,9 +203,17 @@ func mutateBytes(r *Rng, s string) string {
 var opStrs = []string{"=", ">", "<", ">=", "<=", "~", "=", ">=", "<", "==", "=>", "><", "~=", "<<", "=~", "<>"}
 var conNames = []string{"foo", "so:libc.so.6", "lib-x", "cmd:sh", "a.b+c", "so:libz.so.1", "pc:zlib", "x"}
 
+// degenerate version texts around the release suffix and the separators: every prefix/suffix scanner in the
+// constraint parser meets its boundary cases (a text that IS the suffix, a suffix without digits, a lone separator)
+var conEdgeVers = []string{"r5", "r", "r05", "-r5", "-r", "5-r", "1-r", "r-5", "-", "", "0", "1.-r1", "rr5", ".r5", "1r5", "-r05", "1.2-r", "1.2-r5-r6",
+	"5", "r5-r5", "_r5", "-5", "1-r-5", "R5", "1.0-R5"}
+
 func genConstraint(r *Rng, ver string) string {
 	name := Pick(r, conNames)
 	s := name
+	if r.Chance(10) {
+		ver = Pick(r, conEdgeVers)
+	}
 	if r.Chance(85) {
 		s += Pick(r, opStrs) + ver
 	}
